@@ -23,6 +23,8 @@ Families
            programs that do contain such code).  The statement is silent on uses in
            unreachable code: a rejection that is reported AT an unreachable line is
            accepted either way and counted; everything else is compared as usual.
+  dead-typed  the same with `x = 1` up front and the typed atoms (an unreachable
+           assignment of another type must not poison reachable uses).
   literal  conditions are the literals True / False (for: range(0) / range(2)).
            Oracle is CPython executing the same body: UnboundLocalError/NameError on
            the one feasible path  =>  Guppy must reject.  (The converse is not
@@ -91,6 +93,7 @@ def bounds(tier: str) -> dict:
             "typed": [(3, 2, WF, False)],
             "nested": [(4, 2, W, False), (3, 2, WF, True)],
             "dead": [(3, 2, WF, False)],
+            "dead-typed": [(4, 1, W, False)],
             "literal": [(3, 2, WF, False)],
         }
     return {
@@ -98,6 +101,7 @@ def bounds(tier: str) -> dict:
         "typed": [(4, 3, WF, False)],
         "nested": [(5, 3, W, False), (4, 3, WF, True)],
         "dead": [(4, 2, WF, False)],
+        "dead-typed": [(4, 2, WF, False)],
         "literal": [(4, 2, WF, False)],
     }
 
@@ -151,6 +155,9 @@ def programs(tier: str):
     for body in _enum(BASE_ATOMS, b["dead"], allow_dead_code=True):
         if pg.has_dead_code(body):
             yield ("dead", body, None)
+    for body in _enum(TYPED_ATOMS, b["dead-typed"], allow_dead_code=True):
+        if pg.has_dead_code(body):
+            yield ("dead-typed", (("a", A_X1),) + body, None)
     for body in _enum(LIT_ATOMS, b["literal"]):
         k = pg.n_conds(body)
         if k == 0:
@@ -160,15 +167,7 @@ def programs(tier: str):
 
 
 # --------------------------------------------------------------------- reference model
-def model(body) -> dict:
-    """Path-based reaching definitions with a type tag per definition.
-
-    Abstract state = (tag of x, tag of y, tag of inner), tag in {U, I, B, F}.
-    A path that reads an undefined variable goes on (the read does not define
-    anything; `y = x` then leaves y undefined on that path as well), so that all
-    problems of the program are collected."""
-    uses: dict = {}
-
+def _step_factory(uses: dict):
     def step(state, atom, point):
         st = list(state)
         for op in atom.meta:
@@ -180,8 +179,31 @@ def model(body) -> dict:
                 uses.setdefault((point, op[2]), set()).add(st[IDX[op[2]]])
                 st[IDX[op[1]]] = st[IDX[op[2]]]
         return (tuple(st),)
+    return step
 
-    ex = pg.explore_paths(body, ("U",) * len(VARS), step)
+
+CROSSCHECK_MAX_STMTS = 5
+
+
+def model(body) -> dict:
+    """Path-based reaching definitions with a type tag per definition.
+
+    Abstract state = (tag of x, tag of y, tag of inner), tag in {U, I, B, F}.
+    A path that reads an undefined variable goes on (the read does not define
+    anything; `y = x` then leaves y undefined on that path as well), so that all
+    problems of the program are collected.
+
+    For small programs the fixpoint exploration is cross-checked against a plain
+    path-by-path enumeration (a disagreement is a harness error, not a finding)."""
+    uses: dict = {}
+    init = ("U",) * len(VARS)
+    ex = pg.explore_paths(body, init, _step_factory(uses))
+    if pg.count_stmts(body) <= CROSSCHECK_MAX_STMTS:
+        uses2: dict = {}
+        bf, be = pg.brute_force_paths(body, init, _step_factory(uses2), max_iter=4)
+        if be != ex.exits or uses2 != uses or any(bf[p] != ex.before[p] for p in bf):
+            raise AssertionError("reference model: fixpoint exploration and path enumeration "
+                                 "disagree on " + pg.show(body))
     classes = set()
     detail = []
     for (point, v), tags in sorted(uses.items(), key=lambda kv: repr(kv[0])):
@@ -314,7 +336,7 @@ def check_one(item) -> dict:
     if out.kind == "crash":
         return rec
     dead_lines = set()
-    if family == "dead":
+    if family.startswith("dead"):
         for p in ex.unreachable_points():
             lo, hi = lmap[p]
             dead_lines.update(range(lo, hi + 1))
